@@ -370,22 +370,24 @@ func (c *compiler) compileType(y *Type, parent Leafable, isUnion bool) error {
 
 	if y.format == val.FmtEnum || y.format == val.FmtEnumList {
 		y.enum = make(val.EnumList, len(y.enums))
+		// RFC 7950 9.6.4.2: without a value statement, one more than the highest so far
 		nextId := 0
 		for i, item := range y.enums {
+			id := nextId
 			if inherited, found := inheritedEnums.ByLabel(item.ident); found {
-				// RFC 7950 9.6.4.2: an enum of a restricted enumeration keeps its value
-				nextId = inherited.Id
-				item.val = nextId
-			} else if item.val > 0 {
-				nextId = item.val
-			} else {
-				item.val = nextId
+				// an enum of a restricted enumeration keeps its value
+				id = inherited.Id
+			} else if item.valSet {
+				id = item.val
 			}
+			item.val = id
 			y.enum[i] = val.Enum{
-				Id:    nextId,
+				Id:    id,
 				Label: item.ident,
 			}
-			nextId++
+			if id >= nextId {
+				nextId = id + 1
+			}
 		}
 	}
 
